@@ -8,3 +8,4 @@ import BalmProofs.Props.C15
 #print axioms Balm.Props.C04.expandMinimal_inv
 #print axioms Balm.Impl.judgeStrict_sound
 #print axioms Balm.Props.C04.expandBlock_inv
+#print axioms Balm.Props.C04.expandASeeds_inv
